@@ -162,7 +162,8 @@ Definition all_ids (w : world) : list nat := flat_map (fun t => ids (forest_of t
 Record WFw (w : world) : Prop := {
   ww_trees : Forall WF (trees w);
   ww_disj  : NoDup (all_ids w);                               (* no node in two trees (or twice in one) *)
-  ww_next  : Forall (fun n => n < next w) (all_ids w)         (* the allocator is ahead of every node *)
+  ww_next  : Forall (fun n => n < next w) (all_ids w);        (* the allocator is ahead of every node *)
+  ww_pos   : 0 < next w                                       (* 0 is never allocated *)
 }.
 
 (* ---- checker ---- *)
@@ -177,7 +178,8 @@ Definition wf_b (t : tstate) : bool :=
   && su_b f.
 
 Definition wf_world_b (w : world) : bool :=
-  forallb wf_b (trees w) && nodupb Nat.eqb (all_ids w) && forallb (fun n => Nat.ltb n (next w)) (all_ids w).
+  forallb wf_b (trees w) && nodupb Nat.eqb (all_ids w) && forallb (fun n => Nat.ltb n (next w)) (all_ids w)
+  && Nat.ltb 0 (next w).
 
 Lemma NoDup_keys f : NoDup (ids f) -> NoDup (keys f).
 Proof. intros H. rewrite <- keys_fst in H. now apply NoDup_map_inv in H. Qed.
@@ -203,12 +205,13 @@ Qed.
 Theorem wf_world_b_WFw w : wf_world_b w = true <-> WFw w.
 Proof.
   unfold wf_world_b. rewrite !andb_true_iff, !forallb_forall, (nodupb_NoDup Nat.eqb Nat.eqb_eq). split.
-  - intros [[H1 H2] H3]. constructor; [|assumption|].
+  - intros [[[H1 H2] H3] H4]. constructor; [|assumption| |now apply Nat.ltb_lt].
     + apply Forall_forall. intros t Ht. apply wf_b_WF. now apply H1.
     + apply Forall_forall. intros n Hn. apply Nat.ltb_lt. now apply H3.
-  - intros [H1 H2 H3]. rewrite Forall_forall in H1, H3. refine (conj (conj _ H2) _).
+  - intros [H1 H2 H3 H4]. rewrite Forall_forall in H1, H3. refine (conj (conj (conj _ H2) _) _).
     + intros t Ht. apply wf_b_WF. now apply H1.
     + intros n Hn. apply Nat.ltb_lt. now apply H3.
+    + now apply Nat.ltb_lt.
 Qed.
 
 (* ------------------------------------------------------------------ *)
@@ -269,7 +272,7 @@ Proof.
 Qed.
 
 Lemma WFw_empty : WFw empty_world.
-Proof. constructor; cbn; constructor. Qed.
+Proof. constructor; cbn; try constructor. Qed.
 
 Lemma all_ids_app ts1 ts2 n :
   all_ids (W (ts1 ++ ts2) n) = all_ids (W ts1 n) ++ all_ids (W ts2 n).
@@ -277,7 +280,7 @@ Proof. unfold all_ids. cbn. apply flat_map_app. Qed.
 
 Lemma WFw_new_tree w ty c : WFw w -> WFw (snd (step w (ONewTree ty c))).
 Proof.
-  intros [H1 H2 H3]. cbn. constructor.
+  intros [H1 H2 H3 H4]. cbn. constructor; [| | |exact H4].
   - cbn. apply Forall_app. split; [assumption|]. constructor; [apply WF_empty|constructor].
   - unfold all_ids in *. cbn in *. rewrite flat_map_app. cbn. now rewrite app_nil_r.
   - unfold all_ids in *. cbn in *. rewrite flat_map_app. cbn. now rewrite app_nil_r.
